@@ -861,6 +861,43 @@ def check_parsers(rep, prog):
                                                     'outgroup handling not found in the form the rule follows')
     rep.ob('R-DEF', 'make_data_dict_vcf outgroup', okg, detg, m.rel, fn.lineno,
            what="every SNP gets an outgroup allele of its own line ('-' when missing), never the previous line's")
+    # sample columns are paired with their populations position by position: whatever is zipped with the sample columns of a data line
+    # has exactly one entry per sample column of the header
+    def is_sample_slice(e):
+        return isinstance(e, ast.Subscript) and isinstance(e.slice, ast.Slice) and isinstance(e.slice.lower, ast.Constant) and e.slice.lower.value == 9 and e.slice.upper is None and \
+            e.slice.step is None and roles_of(e.value) == {'FIELDS'}
+    zips = [c for c in ast.walk(fn) if isinstance(c, ast.Call) and isinstance(c.func, ast.Name) and c.func.id == 'zip' and len(c.args) == 2 and any(is_sample_slice(a) for a in c.args)]
+    okz, detz = bool(zips), 'no zip over the sample columns found'
+    wrongz = []
+    for z in zips:
+        other = [a for a in z.args if not is_sample_slice(a)]
+        if len(other) != 1 or not isinstance(other[0], ast.Name):
+            okz, detz = False, 'the sequence paired with the sample columns is not a plain list variable: not recognised'
+            continue
+        nm_ = other[0].id
+        defs = [x for x in ast.walk(fn) if isinstance(x, (ast.Assign, ast.AugAssign)) and any(isinstance(t_, ast.Name) and t_.id == nm_ for t_ in (x.targets if isinstance(x, ast.Assign) else [x.target]))]
+        muts = [c for c in ast.walk(fn) if isinstance(c, ast.Call) and isinstance(c.func, ast.Attribute) and isinstance(c.func.value, ast.Name) and c.func.value.id == nm_ and
+                c.func.attr in ('append', 'remove', 'pop', 'insert', 'extend', 'clear', 'sort', 'reverse')]
+        for d_ in defs:
+            v_ = d_.value
+            aligned = isinstance(d_, ast.Assign) and isinstance(v_, ast.ListComp) and len(v_.generators) == 1 and not v_.generators[0].ifs and is_sample_slice(v_.generators[0].iter)
+            if aligned:
+                continue
+            okz = False
+            if isinstance(v_, (ast.ListComp, ast.GeneratorExp)) and any(g.ifs for g in v_.generators) or (isinstance(v_, ast.Call) and isinstance(v_.func, ast.Name) and v_.func.id == 'filter'):
+                wrongz.append('`%s` keeps only some entries of %s: it no longer has one entry per sample column (line %d)' % (ast.unparse(v_)[:60], nm_, d_.lineno))
+            else:
+                detz = 'definition of %s not found in the form the rule follows' % nm_
+        for c in muts:
+            okz = False
+            if c.func.attr in ('remove', 'pop', 'clear', 'sort', 'reverse'):
+                wrongz.append('%s.%s(...) changes which entry belongs to which sample column (line %d)' % (nm_, c.func.attr, c.lineno))
+            else:
+                detz = 'definition of %s not found in the form the rule follows' % nm_
+        if not defs:
+            okz, detz = False, 'definition of %s not found' % nm_
+    rep.ob('R-PAIR', 'make_data_dict_vcf sample columns', okz, '; '.join(wrongz) if wrongz else ('the population list zipped with the sample columns is built with one entry per header sample column and never filtered or reordered' if okz else detz),
+           m.rel, fn.lineno, what='the i-th sample column is counted for the population of the i-th sample of the header')
     # subsampling
     loops = [n for n in own_nodes(fn) if isinstance(n, ast.For) and ast.unparse(n.iter) == 'subsample_dict.items()']
     oks = False
